@@ -111,6 +111,24 @@ def run_case(acc, subj, lab, wname, offset="0"):
         for name, a, b in (("mean", mean, dm), ("std", std, ds), ("entropy", ent, de), ("mean(return_std=False)", np.asarray(mean2, dtype=float), dm)):
             if a.shape != b.shape or not np.allclose(a, b, rtol=1e-12, atol=1e-12, equal_nan=True):
                 viol("predict_differs_from_distribution", "%s: predict gives %s, distribution gives %s" % (name, a.tolist(), b.tolist()))
+        # improper prior (NadarayaWatson, NIC with kappa_0 = nu_0 = 0): the t-distribution has as many degrees of freedom as there is kernel
+        # mass, so its standard deviation may legitimately be infinite / undefined for df <= 2 - but with at least two labeled samples of
+        # positive weight its location and scale are well defined at query points with kernel mass, and so is the std where df > 2
+        n_eff = int(np.sum((~np.isnan(y)) & ((np.array(w) if w is not None else np.ones(len(y))) > 0)))
+        if subj.kernel and not subj.proper_prior and n_eff >= 2:
+            try:
+                df_, loc_, scale_ = (np.asarray(dist.kwds[k], dtype=float) for k in ("df", "loc", "scale"))
+                for qi in range(2):  # the two query points inside the data range (kernel mass > 0)
+                    if not (np.isfinite(loc_[qi]) and np.isfinite(scale_[qi]) and scale_[qi] >= 0):
+                        viol("distribution_parameters_not_finite", "query point %s: loc=%r scale=%r df=%r with %d labeled samples of positive weight" % (
+                            Q[qi].tolist(), loc_[qi], scale_[qi], df_[qi], n_eff), {"kernel": True})
+                        break
+                    if df_[qi] > 2 and not (np.isfinite(std[qi]) and std[qi] >= 0):
+                        viol("std_not_finite_nonnegative", "query point %s: std=%r with df=%r > 2" % (Q[qi].tolist(), std[qi], df_[qi]),
+                             {"far_query": False, "kernel": True})
+                        break
+            except (KeyError, AttributeError):
+                pass
         proper = (subj.proper_prior or (subj.wrapper and n_lab >= 2))
         if proper:
             for qi in range(len(Q)):
